@@ -651,8 +651,8 @@ fn main() {
     // ---------------- per job x context: API agreement, failing writers, model cases
     let call_cap = if thorough { 400 } else { 48 };
     let budget_cap = if thorough { 160 } else { 28 };
-    let wfail_rate: (u64, u64) = if thorough { (1, 18) } else { (2, 5) };
-    let wcalls_rate: (u64, u64) = if thorough { (1, 70) } else { (1, 9) };
+    let wfail_rate: (u64, u64) = if thorough { (1, 10) } else { (2, 5) };
+    let wcalls_rate: (u64, u64) = if thorough { (1, 40) } else { (1, 9) };
     let mut distinct_behaviours = std::collections::HashSet::new();
     for suite in &suites {
         let is_corpus = suite.label.starts_with("corpus") || suite.label == "components";
